@@ -28,23 +28,25 @@ Fixpoint intime (tc : N) (l : list (N * gev)) : bool :=
 
 Lemma ptimes_qlog d l : ptimes d (qlog l) = ptimes d l.
 Proof.
-  induction l as [|[t g] l IH]; [reflexivity|]. destruct g as [e d'|d' es|es d' f i|st a k ttl|st a k|ml].
+  induction l as [|[t g] l IH]; [reflexivity|]. destruct g as [e d'|d' es|es d' f i|st a k ttl|st a k|ml|dep].
   - change (ptimes d ((t, GQueue e d') :: qlog l) = ptimes d ((t, GQueue e d') :: l)). cbn [ptimes]. rewrite IH. reflexivity.
   - change (ptimes d ((t, GFlush d' es) :: qlog l) = ptimes d ((t, GFlush d' es) :: l)). cbn [ptimes]. rewrite IH. reflexivity.
   - change (ptimes d (qlog l) = ptimes d ((t, GSend es d' f i) :: l)). cbn [ptimes]. exact IH.
   - change (ptimes d (qlog l) = ptimes d ((t, GRefresh st a k ttl) :: l)). cbn [ptimes]. exact IH.
   - change (ptimes d (qlog l) = ptimes d ((t, GExpire st a k) :: l)). cbn [ptimes]. exact IH.
   - change (ptimes d (qlog l) = ptimes d ((t, GMulti ml) :: l)). cbn [ptimes]. exact IH.
+  - change (ptimes d (qlog l) = ptimes d ((t, GDupSub dep) :: l)). cbn [ptimes]. exact IH.
 Qed.
 Lemma intime_qlog tc l : intime tc (qlog l) = intime tc l.
 Proof.
-  induction l as [|[t g] l IH]; [reflexivity|]. destruct g as [e d'|d' es|es d' f i|st a k ttl|st a k|ml].
+  induction l as [|[t g] l IH]; [reflexivity|]. destruct g as [e d'|d' es|es d' f i|st a k ttl|st a k|ml|dep].
   - change (intime tc ((t, GQueue e d') :: qlog l) = intime tc ((t, GQueue e d') :: l)). cbn [intime]. exact IH.
   - change (intime tc ((t, GFlush d' es) :: qlog l) = intime tc ((t, GFlush d' es) :: l)). cbn [intime]. rewrite IH, ptimes_qlog. reflexivity.
   - change (intime tc (qlog l) = intime tc ((t, GSend es d' f i) :: l)). cbn [intime]. exact IH.
   - change (intime tc (qlog l) = intime tc ((t, GRefresh st a k ttl) :: l)). cbn [intime]. exact IH.
   - change (intime tc (qlog l) = intime tc ((t, GExpire st a k) :: l)). cbn [intime]. exact IH.
   - change (intime tc (qlog l) = intime tc ((t, GMulti ml) :: l)). cbn [intime]. exact IH.
+  - change (intime tc (qlog l) = intime tc ((t, GDupSub dep) :: l)). cbn [intime]. exact IH.
 Qed.
 
 Definition deadline_ok (w : world) (d : dest) (c : N) : Prop :=
